@@ -20,7 +20,7 @@ type ppuScript struct {
 	stat   int
 	lyc    int
 	cycles int
-	sw     [][2]int // (cycle index before which LCDC bit 7 is written, value 0/1)
+	sw     [][3]int // (cycle index before which LCDC is written, bit 7 value 0/1, low seven bits or -1 for a derived value)
 }
 
 func ppuRun(s *ppuScript) *trace.Scenario {
@@ -45,12 +45,17 @@ func ppuLoop(s *ppuScript, sc *trace.Scenario, p *ppu.PPU, i *interrupts.Interru
 	k := *kp
 	for t := 0; t < s.cycles; t++ {
 		for k < len(s.sw) && s.sw[k][0] == t {
+			// the other LCDC bits must not matter: they are derived from the schedule position
+			low := []int{0x11, 0x00, 0x7f, 0x01, 0x10, 0x55, 0x2a}[(s.sw[k][0]+k)%7]
+			if len(s.sw[k]) > 2 && s.sw[k][2] >= 0 {
+				low = s.sw[k][2]
+			}
 			if s.sw[k][1] == 1 {
-				p.WriteLCDC(0x91)
-				sc.Ev = append(sc.Ev, []any{1, int(p.ReadLY()), int(p.ReadSTAT() & 3)})
+				p.WriteLCDC(uint8(0x80 | low&0x7f))
+				sc.Ev = append(sc.Ev, []any{1, int(p.ReadLY()), int(p.ReadSTAT() & 3), 0x80 | low&0x7f})
 			} else {
-				p.WriteLCDC(0x11)
-				sc.Ev = append(sc.Ev, []any{2, int(p.ReadLY()), int(p.ReadSTAT() & 3)})
+				p.WriteLCDC(uint8(low & 0x7f))
+				sc.Ev = append(sc.Ev, []any{2, int(p.ReadLY()), int(p.ReadSTAT() & 3), low & 0x7f})
 			}
 			k++
 		}
@@ -77,9 +82,9 @@ func ppuMain(c *Ctx) {
 				case 0:
 					t++
 				case 1:
-					ps.sw = append(ps.sw, [2]int{t, 1})
+					ps.sw = append(ps.sw, [3]int{t, 1, trace.Int(e[3]) & 0x7f})
 				case 2:
-					ps.sw = append(ps.sw, [2]int{t, 0})
+					ps.sw = append(ps.sw, [3]int{t, 0, trace.Int(e[3]) & 0x7f})
 				}
 			}
 			w.Put(ppuRun(ps))
@@ -115,11 +120,11 @@ func ppuMain(c *Ctx) {
 				ls = []int{lycs[rng.Intn(len(lycs))], 0}
 			}
 			for _, ly := range ls {
-				emit("frames", &ppuScript{stat: st, lyc: ly, cycles: frames*17556 + 2500, sw: [][2]int{{3 + rng.Intn(40), 1}}})
+				emit("frames", &ppuScript{stat: st, lyc: ly, cycles: frames*17556 + 2500, sw: [][3]int{{3 + rng.Intn(40), 1, -1}}})
 			}
 		}
 		// several sources at once (STAT not judged, VBlank and timing are)
-		emit("frames", &ppuScript{stat: 0x78, lyc: 10, cycles: 17556 + 500, sw: [][2]int{{5, 1}}})
+		emit("frames", &ppuScript{stat: 0x78, lyc: 10, cycles: 17556 + 500, sw: [][3]int{{5, 1, 0}}})
 	}
 	if c.Want("switch") {
 		// LCD switched off and on again at every cycle of one line of each class
@@ -138,7 +143,7 @@ func ppuMain(c *Ctx) {
 				gap := 1 + rng.Intn(200)
 				st := []int{0, 8, 16, 32, 64}[rng.Intn(5)]
 				emit("switch", &ppuScript{stat: st, lyc: []int{0, line, 144}[rng.Intn(3)], cycles: offAt + gap + 700,
-					sw: [][2]int{{onAt, 1}, {offAt, 0}, {offAt + gap, 1}}})
+					sw: [][3]int{{onAt, 1, -1}, {offAt, 0, -1}, {offAt + gap, 1, -1}}})
 			}
 		}
 	}
@@ -150,11 +155,11 @@ func ppuMain(c *Ctx) {
 			count = 120
 		}
 		for i := 0; i < count; i++ {
-			var sw [][2]int
+			var sw [][3]int
 			t := rng.Intn(50)
 			total := 24000
 			for t < total {
-				sw = append(sw, [2]int{t, rng.Intn(3) / 2})
+				sw = append(sw, [3]int{t, rng.Intn(3) / 2, -1})
 				if rng.Intn(3) == 0 {
 					sw[len(sw)-1][1] = 1
 				}
